@@ -31,6 +31,8 @@ CONSTANTS Proc,          \* command processes
           DeriveFrom,    \* [Version -> SUBSET Version]: versions that are not backed up from a source but derived from
                          \* snapshots already in the repository (merge, rewrite, repair-snapshots): only trees are written
           DeriveForget,  \* a deriving command removes its source snapshots afterwards (rewrite --forget, repair --delete)
+          PartialFlush,  \* TRUE: a command may write an index file with what it has indexed so far at any moment
+                         \* (the indexer flushes after 50 000 blobs / 5 minutes; hook set_index_flush_count on the real side)
           SnapFirst      \* TRUE: the derived snapshot is saved BEFORE its trees are flushed (repair-snapshots before fix
                          \* 23166c4) - kept to show that AllReadable then fails at a crash point
 
@@ -97,6 +99,13 @@ BPack(p) ==
                              ![p].pend = @ \cup {[p |-> nextp, blobs |-> S, mark |-> FALSE, t |-> now]}]
   /\ nextp' = nextp + 1
   /\ UNCHANGED <<idx, snaps, now, nexti, ncmd, hist>>
+
+\* the indexer flushes what it has so far
+BFlushPartial(p) ==
+  /\ PartialFlush /\ loc[p].pc = "b_pack" /\ loc[p].pend # {}
+  /\ idx' = Put(idx, nexti, loc[p].pend) /\ nexti' = nexti + 1
+  /\ loc' = [loc EXCEPT ![p].pend = {}]
+  /\ UNCHANGED <<packs, snaps, now, nextp, ncmd, hist>>
 
 BFlush(p) ==
   /\ loc[p].pc = "b_pack"
@@ -260,6 +269,14 @@ PRepack(p) ==
                /\ nextp' = nextp + 1
   /\ UNCHANGED <<idx, snaps, now, nexti, ncmd, hist>>
 
+\* ... and so does the indexer of prune while it rebuilds the index files
+PWriteIdxPartial(p) ==
+  /\ PartialFlush /\ loc[p].pc \in {"p_repack", "p_widx"}
+  /\ \E E \in (SUBSET loc[p].newents) \ {{}, loc[p].newents} :
+       /\ idx' = Put(idx, nexti, E) /\ nexti' = nexti + 1
+       /\ loc' = [loc EXCEPT ![p].newents = @ \ E]
+  /\ UNCHANGED <<packs, snaps, now, nextp, ncmd, hist>>
+
 PWriteIdx(p) ==
   /\ loc[p].pc = "p_widx"
   /\ idx' = IF loc[p].newents = {} THEN idx ELSE Put(idx, nexti, loc[p].newents)
@@ -358,7 +375,7 @@ Tick ==
 
 Step(p) ==
   \/ \E v \in Version : BStart(p, v)
-  \/ BLoad(p) \/ BPack(p) \/ BFlush(p) \/ BSnap(p)
+  \/ BLoad(p) \/ BPack(p) \/ BFlush(p) \/ BSnap(p) \/ BFlushPartial(p) \/ PWriteIdxPartial(p)
   \/ \E v \in Version : DStart(p, v)
   \/ DSnapFirst(p) \/ DForget(p)
   \/ \E s \in Version : Forget(p, s)
